@@ -645,8 +645,8 @@ DevKinds(v, k) ==
            \* step walks
            \cup (IF c.t = "int" /\ k \in ConcFrom[v] THEN {"neg", "p65535", "p65536", "huge"} ELSE {})
            \* integers in float spelling
-           \cup (IF c.t = "int" THEN {"fdot"} ELSE {})
-           \cup (IF c.t = "int" /\ k \in ConcFrom[v] THEN {"fexp", "ftag", "fnegzero", "fbig"} ELSE {})
+           \cup (IF c.t = "int" /\ k \in ConcFrom[v] THEN {"fdot", "fexp", "ftag", "fnegzero", "fbig"} ELSE {})
+           \cup (IF c.t = "int" /\ k \in {"dns.port", "dns.parental_sensitivity"} THEN {"fdot"} ELSE {})
            \cup (IF k = "cl0.name" THEN MLKinds ELSE {})
            \cup (IF k = "user_rules" THEN {"mllist"} ELSE {})
            \cup (IF c.t = "str" /\ k \in ConcFrom[v] THEN {"estr", "blank"} ELSE {})
